@@ -2,6 +2,7 @@ import itertools
 from typing import Union
 
 import libcst as cst
+from libcst import matchers as m
 from libcst.codemod import (
     Codemod,
     CodemodContext,
@@ -219,6 +220,11 @@ class RemoveUnusedVariables(VisitorBasedCodemodCommand, NameResolutionMixin):
             assignment.references for assignment in scope[node.value]
         )
 
+    def _may_have_side_effects(self, value: cst.BaseExpression) -> bool:
+        return bool(
+            m.findall(value, m.Call() | m.Await() | m.Yield() | m.NamedExpr())
+        )
+
     def leave_Assign(
         self, original_node: cst.Assign, updated_node: cst.Assign
     ) -> Union[
@@ -236,6 +242,9 @@ class RemoveUnusedVariables(VisitorBasedCodemodCommand, NameResolutionMixin):
                 new_targets.append(target.with_changes(target=new_target))
         # remove everything
         if not new_targets:
+            # the right-hand side still runs for its effects: `status = log(...)`
+            if self._may_have_side_effects(original_node.value):
+                return updated_node
             return cst.RemovalSentinel.REMOVE
         return updated_node.with_changes(targets=new_targets)
 
